@@ -16,6 +16,9 @@ EXPLANATION = ('(R1/R2) "never crashes": every panic-capable construct reachable
                'constant is stored in column 2 after the characters). That EVERY grammar string parses to its denotation is NOT decided.')
 
 
+FACTS = [None]      # the facts of the current run (set by run(); guard_interval evaluates named/promoted constants through it)
+
+
 def guard_interval(b, cfg, tr, x_locals, target_bb):
     """Interval of an unsigned integer value (held in any of x_locals) at target_bb, refined by the comparison
     switches that dominate target_bb."""
@@ -26,10 +29,44 @@ def guard_interval(b, cfg, tr, x_locals, target_bb):
         if t['t'] != 'switch' or not cfg.dominates(bi, target_bb) or bi == target_bb:
             continue
         o = tr.origin(t['discr'])
+        if o['o'] == 'rvalue' and o['rv']['r'] == 'discr':
+            # match x.cmp(&K) { Less .. Equal .. Greater .. }: which orderings lead to the target?
+            co = tr.origin(dict(o['rv']['place'], k='copy'))
+            if co['o'] == 'call' and call_matches(co['term'], 'Ord>::cmp', 'Ord::cmp', '::cmp') and len(co['term']['args']) == 2:
+                xo = tr.origin(co['term']['args'][0])
+                ko = tr.origin(co['term']['args'][1])
+                xl = [l for l, _ in tr.chain(co['term']['args'][0])]
+                if xo.get('l') is not None:
+                    xl.append(xo['l'])
+                kk = const_value(ko['c']) if ko['o'] == 'const' else None
+                if ko['o'] == 'const' and not isinstance(kk, int) and FACTS[0] is not None:
+                    from ..mirutil import const_int
+                    kk = const_int(FACTS[0], ko['c'])
+                if (set(xl) & set(x_locals)) and isinstance(kk, int):
+                    edges = {'eq': None, 'gt': None, 'lt': None}
+                    arms = dict((v, x) for v, x in t['arms'])
+                    edges['eq'] = arms.get('0', t['otherwise'])
+                    edges['gt'] = arms.get('1', t['otherwise'])
+                    lt_keys = [x for v, x in t['arms'] if v not in ('0', '1')]
+                    edges['lt'] = lt_keys[0] if lt_keys else t['otherwise']
+                    reach_by = {k2: (target_bb in cfg.reachable_from([e], avoid={bi})) for k2, e in edges.items()}
+                    allowed = {k2 for k2, r in reach_by.items() if r}
+                    if allowed and allowed != {'eq', 'gt', 'lt'}:
+                        nlo = min([kk if 'eq' in allowed else 10 ** 30, kk + 1 if 'gt' in allowed else 10 ** 30, 0 if 'lt' in allowed else 10 ** 30])
+                        nhi = max([kk if 'eq' in allowed else -1, kk - 1 if 'lt' in allowed else -1, 10 ** 30 if 'gt' in allowed else -1])
+                        lo = max(lo, nlo)
+                        if nhi < 10 ** 30:
+                            hi = nhi if hi is None else min(hi, nhi)
+                        used.append((bi, 'cmp', kk, tuple(sorted(allowed))))
+            continue
         if o['o'] != 'rvalue' or o['rv']['r'] != 'binop':
             continue
         op = o['rv']['op']
         a, c = o['rv']['a'], o['rv']['b']
+        if a.get('k') == 'const' and c.get('k') != 'const':
+            # K op x  ==  x op' K
+            a, c = c, a
+            op = {'Lt': 'Gt', 'Le': 'Ge', 'Gt': 'Lt', 'Ge': 'Le'}.get(op, op)
         ch = [l for l, _ in tr.chain(a)]
         ao = tr.origin(a)
         if ao['o'] in ('call', 'rvalue', 'local', 'arg') and not field_path(ao.get('p', [])) and ao.get('l') is not None:
@@ -37,6 +74,8 @@ def guard_interval(b, cfg, tr, x_locals, target_bb):
         if not (set(ch) & set(x_locals)) or c.get('k') != 'const':
             continue
         k = const_value(c)
+        if isinstance(k, str) and len(k) == 1:
+            k = ord(k)          # a char constant: compared by code point
         if not isinstance(k, int):
             continue
         # which edge leads to the target?
@@ -81,8 +120,77 @@ def guard_interval(b, cfg, tr, x_locals, target_bb):
     return lo, hi, used
 
 
+def _const_bounds(b, tr, t):
+    """BoundsCheck with a constant index below the constant length of a fixed-size array."""
+    import re as _re
+    ln, ix = t['ops']
+    io = tr.origin(ix)
+    lo_ = tr.origin(ln)
+    k = const_value(io['c']) if io['o'] == 'const' else None
+    n = const_value(lo_['c']) if lo_['o'] == 'const' else None
+    if isinstance(k, int) and isinstance(n, int) and 0 <= k < n:
+        return 'constant index %d < constant length %d' % (k, n)
+    return None
+
+
+def _sub_under_guard(b, cfg, tr, bi, t):
+    """`x - K` (unsigned) where the dominating guards give x >= K: e.g. `c as u8 - b'0'` inside the arm for '0'..='9'."""
+    a, c = t['ops']
+    co = tr.origin(c)
+    k = const_value(co['c']) if co['o'] == 'const' else None
+    if not isinstance(k, int):
+        return None
+    ao = tr.origin(a)
+    src = a
+    # look through a widening/narrowing cast of the guarded value (char -> u8)
+    if ao['o'] == 'rvalue' and ao['rv']['r'] == 'cast' and not ao['p']:
+        src = ao['rv']['a']
+    so = tr.origin(src)
+    xs = {l for l, _ in tr.chain(src)}
+    if so.get('l') is not None:
+        xs.add(so['l'])
+    for l in range(len(b.locals)):
+        if tr.origin({'k': 'copy', 'l': l, 'p': []}).get('l') in xs and not tr.origin({'k': 'copy', 'l': l, 'p': []}).get('p'):
+            xs.add(l)
+    lo, hi, used = guard_interval(b, cfg, tr, xs, bi)
+    if lo >= k and hi is not None and hi < 256:
+        return 'the minuend is in [%d, %d] by the dominating guards, the subtrahend is %d' % (lo, hi, k)
+    return None
+
+
+def digit_expect(b, cfg, tr, bi, t):
+    """`c.to_digit(radix >= 10).expect(..)` / unwrap() where the dominating guards confine c to '0'..='9': the Option is Some."""
+    n = callee_name(t) or ''
+    if not n.endswith(('Option::<T>::expect', 'Option::<T>::unwrap')) or not t['args']:
+        return None
+    o = tr.origin(t['args'][0])
+    if o['o'] != 'call' or not (callee_name(o['term']) or '').endswith('to_digit') or len(o['term']['args']) != 2:
+        return None
+    ro = tr.origin(o['term']['args'][1])
+    radix = const_value(ro['c']) if ro['o'] == 'const' else None
+    if ro['o'] == 'const' and not isinstance(radix, int) and FACTS[0] is not None:
+        from ..mirutil import const_int
+        radix = const_int(FACTS[0], ro['c'])
+    if not isinstance(radix, int) or not 10 <= radix <= 36:
+        return None
+    co = tr.origin(o['term']['args'][0])
+    xs = {l for l, _ in tr.chain(o['term']['args'][0])}
+    if co.get('l') is not None:
+        xs.add(co['l'])
+    # every local holding (a copy of) the same character
+    for l in range(len(b.locals)):
+        ch = [c2 for c2, _ in tr.chain({'k': 'copy', 'l': l, 'p': []})]
+        if set(ch) & xs or tr.origin({'k': 'copy', 'l': l, 'p': []}).get('l') in xs:
+            xs.add(l)
+    lo, hi, used = guard_interval(b, cfg, tr, xs, bi)
+    if hi is not None and lo >= 48 and hi <= 57:
+        return 'the character is in [%r, %r] by the dominating guards, so to_digit(%d) is Some' % (chr(lo), chr(hi), radix)
+    return None
+
+
 def run(ctx):
     rep, f, cg = ctx.rep, ctx.facts, ctx.cg
+    FACTS[0] = f
     rep.trust('nalgebra Matrix3 IndexMut panics iff row >= 3 or col >= 3; Enumerate over a slice iterator yields indices < len')
     fo = f.one(self_adt='transform::Transform2', name='from_operations')
     ws = f.one(self_adt='wallpaper::WyckoffSite', name='new')
@@ -119,6 +227,10 @@ def run(ctx):
                 if kind in ('NullPointerDereference', 'MisalignedPointerDereference'):
                     v, sig, why = _ptrcheck(b, tr, bi, t)
                     rep.check(v == 'discharged', 'R1', 'ptr-check:%s' % b.fn_name, where(b, bi), why, why)
+                elif kind == 'BoundsCheck' and _const_bounds(b, tr, t):
+                    rep.ok('R1', 'const-index-in-bounds:%s' % b.fn_name, where(b, bi), _const_bounds(b, tr, t))
+                elif kind == 'Overflow' and t.get('binop') == 'Sub' and _sub_under_guard(b, cfg, tr, bi, t):
+                    rep.ok('R1', 'subtraction-cannot-underflow:%s' % b.fn_name, where(b, bi), _sub_under_guard(b, cfg, tr, bi, t))
                 else:
                     rep.fail('R1', '%s/assert:%s' % (b.fn_name, kind), where(b, bi),
                              'a %s check can panic on some input string' % kind)
@@ -130,12 +242,19 @@ def run(ctx):
                 if '(usize, usize)' in n and 'index' in n.rsplit('::', 1)[-1]:
                     index_sites.append((b, cfg, tr, bi, t))
                     continue
+                dd = digit_expect(b, cfg, tr, bi, t)
+                if dd:
+                    rep.ok('R1', 'digit-value-is-some:%s' % b.fn_name, where(b, bi), dd)
+                    continue
                 rep.fail('R1', '%s/%s' % (b.fn_name, n.rsplit('::', 1)[-1]), where(b, bi),
                          '%s can panic on some input string: the parser must report an error instead' % n)
     if n_debug:
         rep.assume('%d panic-capable site(s) inside debug_assert!-family self-checks are not decided' % n_debug)
     rep.floor('R1', 'panic-capable sites enumerated in the parser', n_sites, 3)
-    rep.floor('R2', 'matrix index writes in the parser', len(index_sites), 3)
+    # a parser that assembles the matrix with a constructor has no index writes that could be out of bounds
+    has_ctor = any((callee_name(t2) or '').endswith('::new') and len(t2['args']) == 9 and 'Matrix' in t2['dest'].get('ty', '')
+                   for _, t2 in fo.calls())
+    rep.floor('R2', 'matrix index writes in the parser', len(index_sites), 0 if has_ctor else 3)
     for (b, cfg, tr, bi, t) in index_sites:
         idx = tr.origin(t['args'][1])
         ok = False
@@ -193,6 +312,11 @@ def _row_from_guarded_enumerate(b, cfg, tr, ro, use_bb):
         return False, 'the enumerated iterator passes through %s' % names
     if vec_l is None:
         return False, 'enumerated collection not a local'
+    import re as _re
+    m = _re.match(r'^&?\[.*; (\d+)\]$', b.local_ty(vec_l))
+    if m:
+        nfix = int(m.group(1))
+        return nfix - 1 < 3, 'enumerate counter < %d, the length of the fixed-size array _%d' % (nfix, vec_l)
     # len() calls on the same vec
     xs = []
     for bi, t in b.calls():
@@ -233,6 +357,11 @@ def _row_from_guarded_enumerate(b, cfg, tr, ro, use_bb):
 # divides, the row's constant ends up in column 2.  They say nothing about strings outside the grammar.
 
 def transition_lemmas(ctx, fo):
+    """Per-character lemmas on one symbolic step of every character loop, with the parser state discovered by behaviour:
+    the state is every place (local, field of a local, entry of the matrix) that lives across iterations; the roles (pending
+    sign, pending operator, x / y / constant cells) are read off what the steps for '-', '/', 'x', 'y' and a digit change, and
+    every lemma then restricts what the OTHER steps may do to them.  The cells are finally traced to the matrix entries of
+    their row.  Works for the matrix-writing parser of the reference tree and for parsers that collect a row first."""
     from ..sym import NUM, SYM, STRUCT, SymEx, sfield
     from ..terms import Norm, NotNumeric
     from ..loops import for_loops
@@ -242,193 +371,306 @@ def transition_lemmas(ctx, fo):
     loops = for_loops(fo, cfg, tr)
     inner = [d for d in loops if 'Chars' in (d['next_term']['args'][0].get('ty', '') + d['next_term']['func'].get('fn', '') +
                                                  str(d['next_term']['func'].get('self_ty', '')))]
-    if not rep.check(len(inner) == 1, 'R3', 'anchor:character-loop', where(fo), 'one loop over chars()',
-                     'expected exactly one loop over the characters of a component, found %d' % len(inner), 'undecidable-shape'):
-        return
-    d = inner[0]
-    hdr = d['header']
-    item = d['item_local']
-    # Some-edge of the switch after next()
-    nb = d['next_term']['target']
-    sw = fo.blocks[nb]['term']
-    some_t = None
-    if sw['t'] == 'switch':
-        for v, tgt in sw['arms']:
-            if v == '1':
-                some_t = tgt
-        if some_t is None:
-            some_t = sw['otherwise']
-    if not rep.check(some_t is not None, 'R3', 'character-loop-shape', where(fo, nb), 'switch on next()', 'loop shape not recognised',
+    if not rep.check(1 <= len(inner) <= 2, 'R3', 'anchor:character-loop', where(fo), '%d loop(s) over chars()' % len(inner),
+                     'expected one loop over the characters of a component (or one per row), found %d' % len(inner),
                      'undecidable-shape'):
         return
-    # roles of the state locals
-    mat_l = None
-    writes = {}   # col -> value local
-    for bi, t in fo.calls():
-        n = callee_name(t) or ''
-        if '(usize, usize)' in n and n.endswith('index_mut'):
-            from ..anchors import container_root
-            mat_l = container_root(fo, tr, t['args'][0])
-            idx = tr.origin(t['args'][1])
-            col = const_value(idx['rv']['ops'][1]) if idx['o'] == 'rvalue' else None
-            # the statement storing through the returned reference
-            rl = t['dest']['l']
-            for (wbi, wsi, pl, rv) in tr.defs.dwrites.get(rl, []):
-                if rv.get('r') == 'use' and rv['a'].get('l') is not None:
-                    writes[col] = (tr.chain(rv['a'])[-1][0], bi in d['loop']['body'])
-    sign_l = writes.get(0, (None,))[0]
-    const_l = writes.get(2, (None,))[0]
-    op_l = None
-    for i, l in enumerate(fo.locals):
-        if l['ty'] == 'std::option::Option<char>' and l.get('name') and any(x[0] in d['loop']['body'] for x in tr.defs.of(i)):
-            op_l = i
-    if not rep.check(None not in (mat_l, sign_l, const_l, op_l) and writes.get(1, (None,))[0] == sign_l, 'R3', 'parser-state-roles', where(fo),
-                     'matrix _%s, pending sign _%s, constant _%s, pending operator _%s' % (mat_l, sign_l, const_l, op_l),
-                     'cannot identify the parser state (matrix / pending sign / constant / pending operator) by role: %s'
-                     % (dict(mat=mat_l, sign=sign_l, const=const_l, op=op_l),), 'undecidable-shape'):
-        return
-    rep.check(writes.get(2, (None, True))[1] is False, 'R3', 'constant-stored-after-the-characters', where(fo),
-              'transform[(row, 2)] := constant after the character loop', 'the constant is stored inside the character loop')
-    # the outer enumerate index local
-    outer = [x for x in loops if x is not d and d['header'] in x['loop']['body']]
     n = Norm()
-    results = {}
-    for row in (0, 1):
-        sx = SymEx(f)
-        M = SymEx.m3([[SYM('m%d%d' % (i, j)) for j in range(3)] for i in range(3)])
-        frame = {mat_l: M, sign_l: SYM('sign'), const_l: SYM('constant'), op_l: SYM('operator'),
-                 item: STRUCT('std::option::Option', ('Some', 1), [('0', SYM('c'))])}
-        # the row index: every local holding the enumerate counter
-        if outer:
-            oi = outer[0]['item_local']
-            frame[oi] = STRUCT('std::option::Option', ('Some', 1), [('0', STRUCT('(tuple)', None, [('0', NUM(row)), ('1', SYM('op'))]))])
-            # locals copied from the outer item before the inner loop
-            for i2 in range(len(fo.locals)):
-                if i2 in frame:
-                    continue
-                ds = tr.defs.single(i2)
-                if ds and ds[2] == 'assign' and ds[3]['r'] == 'use' and ds[0] in outer[0]['loop']['body'] and ds[0] not in d['loop']['body']:
-                    a = ds[3]['a']
-                    if a.get('l') == oi:
-                        fp = field_path(a['p'])
-                        if fp[-1:] == ['0'] and len(fp) >= 2:
-                            frame[i2] = NUM(row)
-        outs = sx.run_region(fo, some_t, frame, {hdr})
-        results[row] = (sx, outs)
-    ok_all = True
-
-    def state_of(sx, o):
-        fr = o.st.frames[sx.region_fid]
-        g = lambda l: sx.deep(o.st, fr.get(l))
-        return {'sign': g(sign_l), 'constant': g(const_l), 'operator': g(op_l), 'matrix': g(mat_l)}
-
-    def char_class(o):
-        """set of character codes this path is taken for (from switch facts on c), or ('digit',) / ('other',)."""
-        codes = None
-        conds = []
-        for c in o.pc:
-            if c[0] == 'switch' and c[1] == SYM('c'):
-                codes = c[2]
-            elif c[0] == 'cond':
-                conds.append(c)
-        return codes, conds
-
-    sx0, outs0 = results[0]
-    if not rep.check(bool(outs0) and not sx0.aborted, 'R3', 'character-step-loop-free', where(fo, some_t), '%d paths per character step' % len(outs0),
-                     'one step of the character loop is not loop-free', 'undecidable-shape'):
-        return
-    rep.floor('R3', 'paths through one character step', len(outs0), 8, where(fo, some_t))
-
-    def same(a, b):
-        try:
-            return n.rf(a).equals(n.rf(b))
-        except (NotNumeric, TypeError):
-            return a == b
-
-    def mat_changes(row, st):
-        ch = {}
-        for i in range(3):
-            for j in range(3):
-                v = sfield(st['matrix'], '%d%d' % (i, j))
-                if v != SYM('m%d%d' % (i, j)):
-                    ch[(i, j)] = v
-        return ch
     lemmas = {32: 'blank', 43: 'plus', 45: 'minus', 120: 'x', 121: 'y', 47: 'slash'}
+    all_cells = []
+    n_digit = 0
     seen = set()
-    for row in (0, 1):
-        sx, outs = results[row]
-        for o in outs:
-            codes, conds = char_class(o)
-            if codes is None or o.ret[0] != 'stopped' if isinstance(o.ret, tuple) else True:
+    for li, d in enumerate(inner):
+        hdr, item = d['header'], d['item_local']
+        body = d['loop']['body']
+        sw = fo.blocks[d['next_term']['target']]['term']
+        some_t = None
+        if sw['t'] == 'switch':
+            arms = dict((v, x) for v, x in sw['arms'])
+            some_t = arms.get('1', sw['otherwise'])
+        if not rep.check(some_t is not None, 'R3', 'character-loop-shape', where(fo, hdr), 'switch on next()', 'loop shape not recognised',
+                         'undecidable-shape'):
+            return
+        # state locals: defined both outside and inside the loop body (or written in part inside it)
+        state = []
+        for l in range(1, len(fo.locals)):
+            if l == item:
                 continue
-            nm = lemmas.get(codes)
-            if nm is None:
-                continue
-            st = state_of(sx, o)
-            ch = mat_changes(row, st)
-            sign_same, const_same, op_same = st['sign'] == SYM('sign'), st['constant'] == SYM('constant'), st['operator'] == SYM('operator')
-            if nm == 'blank':
-                ok = sign_same and const_same and op_same and not ch
-                why = 'a blank changes the parser state (sign %s, constant %s, operator %s, matrix %s): "x - 1/2" and "x -1/2" parse ' \
-                      'differently although spaces are optional' % (sign_same, const_same, op_same, not ch)
-            elif nm == 'plus':
-                ok = (sign_same or same(st['sign'], NUM(1))) and const_same and op_same and not ch
-                why = '\'+\' changes more than the pending sign'
-            elif nm == 'minus':
-                ok = same(st['sign'], NUM(-1)) and const_same and op_same and not ch
-                why = '\'-\' does not simply make the pending sign negative (sign -> %r)' % (st['sign'],)
-            elif nm in ('x', 'y'):
-                col = 0 if nm == 'x' else 1
-                ok = set(ch) == {(row, col)} and ch[(row, col)] == SYM('sign') and same(st['sign'], NUM(1)) and const_same and op_same
-                why = '\'%s\' does not store the pending sign in entry (%d,%d) and consume it: matrix changes %s, sign -> %r' % (nm, row, col, ch, st['sign'])
-            else:   # slash
-                ok = sign_same and const_same and not ch and st['operator'][0] == 'struct' and st['operator'][2] and st['operator'][2][0] == 'Some'
-                why = '\'/\' does not simply record a pending division'
-            seen.add(nm)
-            rep.check(ok, 'R3', 'char-step:%s:row%d' % (nm, row), where(fo, some_t), 'lemma for \'%s\' holds' % nm, why)
-            ok_all &= ok
+            defs_in = [x for x in tr.defs.of(l) if x[0] in body and x[0] in cfg.reach]
+            pw_in = [x for x in tr.defs.pwrites.get(l, []) if x[0] in body and x[0] in cfg.reach]
+            defs_out = [x for x in tr.defs.of(l) if x[0] not in body and x[0] in cfg.reach]
+            if (defs_in and defs_out) or (pw_in and defs_out):
+                ty = fo.local_ty(l)
+                if ty in ('f64', 'bool', 'std::option::Option<char>', 'char') or pw_in:
+                    state.append(l)
+        # a matrix written through index_mut inside the loop
+        mat_l = None
+        for bi, t in fo.calls():
+            nm = callee_name(t) or ''
+            if '(usize, usize)' in nm and nm.endswith('index_mut'):
+                from ..anchors import container_root
+                mat_l = container_root(fo, tr, t['args'][0])
+        outer = [x for x in loops if x is not d and hdr in x['loop']['body']]
+        rows = (0, 1) if outer else (li,)
+        for row in rows:
+            sx = SymEx(f)
+            frame = {item: STRUCT('std::option::Option', ('Some', 1), [('0', SYM('c'))])}
+            for l in state:
+                frame[l] = SYM('v%d' % l)
+            if mat_l is not None:
+                frame[mat_l] = SymEx.m3([[SYM('m%d%d' % (i, j)) for j in range(3)] for i in range(3)])
+            if outer:
+                oi = outer[0]['item_local']
+                frame[oi] = STRUCT('std::option::Option', ('Some', 1), [('0', STRUCT('(tuple)', None, [('0', NUM(row)), ('1', SYM('op'))]))])
+                for i2 in range(len(fo.locals)):
+                    if i2 in frame:
+                        continue
+                    ds = tr.defs.single(i2)
+                    if ds and ds[2] == 'assign' and ds[3]['r'] == 'use' and ds[0] in outer[0]['loop']['body'] and ds[0] not in body:
+                        a = ds[3]['a']
+                        if a.get('l') == oi:
+                            fp = field_path(a['p'])
+                            if fp[-1:] == ['0'] and len(fp) >= 2:
+                                frame[i2] = NUM(row)
+            # one step ends at the loop head; a path that leaves the loop (an error return) ends where it leaves
+            leave = {s2 for bb2 in body for s2 in cfg.succ[bb2] if s2 not in body}
+            outs = sx.run_region(fo, some_t, frame, {hdr} | leave)
+            if not rep.check(bool(outs) and not sx.aborted, 'R3', 'character-step-loop-free', where(fo, some_t),
+                             '%d paths per character step' % len(outs), 'one step of the character loop is not loop-free: %s' % (sx.aborted[:3],),
+                             'undecidable-shape'):
+                return
+            steps = []      # (class name or 'digit', outcome, delta)
+            for o in outs:
+                if not (isinstance(o.ret, tuple) and o.ret[0] == 'stopped' and o.ret[1] == hdr):
+                    continue
+                codes = None
+                for c in o.pc:
+                    if c[0] == 'switch' and c[1] == SYM('c'):
+                        codes = c[2]
+                fr = o.st.frames[sx.region_fid]
+                delta = {}
+                for l in state:
+                    v = sx.deep(o.st, fr.get(l))
+                    if v == SYM('v%d' % l):
+                        continue
+                    if isinstance(v, tuple) and v[0] == 'struct' and v[1] == '?sym:v%d' % l:
+                        for k, x in v[3]:
+                            if x != SYM('v%d.%s' % (l, k)):
+                                delta['v%d.%s' % (l, k)] = x
+                    else:
+                        delta['v%d' % l] = v
+                if mat_l is not None:
+                    mv = sx.deep(o.st, fr.get(mat_l))
+                    for i in range(3):
+                        for j in range(3):
+                            x = sfield(mv, '%d%d' % (i, j)) if isinstance(mv, tuple) and mv[0] == 'struct' else None
+                            if x is not None and x != SYM('m%d%d' % (i, j)):
+                                delta['M[%d,%d]' % (i, j)] = x
+                steps.append((lemmas.get(codes) if codes is not None else 'digit', o, delta))
+            rep.floor('R3', 'paths through one character step', len(steps), 7, where(fo, some_t))
+
+            def same(a, b):
+                try:
+                    return n.rf(a).equals(n.rf(b))
+                except (NotNumeric, TypeError):
+                    return a == b
+            by = {}
+            for nm, o, dl in steps:
+                by.setdefault(nm, []).append((o, dl))
+            # ---- roles, read off the steps that define them ----
+            sign_p = op_p = x_p = y_p = None
+            ms = by.get('minus', [])
+            if len(ms) == 1 and len(ms[0][1]) == 1 and same(list(ms[0][1].values())[0], NUM(-1)):
+                sign_p = list(ms[0][1])[0]
+            sl = by.get('slash', [])
+            if len(sl) >= 1 and all(len(dl) == 1 for _, dl in sl) and len({list(dl)[0] for _, dl in sl}) == 1:
+                op_p = list(sl[0][1])[0]
+            for nm in ('x', 'y'):
+                xs = by.get(nm, [])
+                if len(xs) == 1 and sign_p is not None:
+                    others = [k for k in xs[0][1] if k != sign_p]
+                    if len(others) == 1:
+                        if nm == 'x':
+                            x_p = others[0]
+                        else:
+                            y_p = others[0]
+            okr = None not in (sign_p, op_p, x_p, y_p) and len({sign_p, op_p, x_p, y_p}) == 4
+            if not rep.check(okr, 'R3', 'parser-state-roles', where(fo, some_t),
+                             'pending sign %s, pending operator %s, x cell %s, y cell %s' % (sign_p, op_p, x_p, y_p),
+                             'cannot identify the parser state by what the steps for - / x y change: sign=%s operator=%s x=%s y=%s '
+                             '(each of these steps must change exactly the place that carries its meaning)' % (sign_p, op_p, x_p, y_p),
+                             'undecidable-shape' if not ms or not sl or 'x' not in by or 'y' not in by else 'violation'):
+                return
+            S = SYM(sign_p)
+            for nm, o, dl in steps:
+                if nm == 'digit' or nm is None:
+                    continue
+                seen.add(nm)
+                if nm in ('blank', 'plus'):
+                    ok = not dl or (nm == 'plus' and set(dl) == {sign_p} and same(dl[sign_p], NUM(1)))
+                    why = 'a %s changes the parser state (%s): "x - 1/2" and "x -1/2" would parse differently although spaces ' \
+                          'are optional' % ('blank' if nm == 'blank' else '\'+\'', sorted(dl))
+                elif nm == 'minus':
+                    ok = set(dl) == {sign_p} and same(dl[sign_p], NUM(-1))
+                    why = '\'-\' does not simply make the pending sign negative (changes %s)' % sorted(dl)
+                elif nm in ('x', 'y'):
+                    cell = x_p if nm == 'x' else y_p
+                    ok = set(dl) == {cell, sign_p} and dl[cell] == S and same(dl[sign_p], NUM(1))
+                    if cell.startswith('M['):
+                        ok = ok and cell == 'M[%d,%d]' % (row, 0 if nm == 'x' else 1)
+                    why = '\'%s\' does not store the pending sign in its cell and consume it: changes %s' % (nm, {k: str(v)[:40] for k, v in dl.items()})
+                else:
+                    ok = set(dl) == {op_p}
+                    why = '\'/\' does not simply record a pending division (changes %s)' % sorted(dl)
+                rep.check(ok, 'R3', 'char-step:%s:row%d' % (nm, row), where(fo, some_t), 'lemma for \'%s\' holds' % nm, why)
+            # ---- digits ----
+            const_p = None
+            pending = {repr(list(dl.values())[0]) for _, dl in sl}     # the value(s) the operator place takes after '/'
+            for o, dl in by.get('digit', []):
+                cands = [k for k in dl if k not in (sign_p, op_p)]
+                if len(cands) != 1:
+                    continue
+                cp = cands[0]
+                cv = dl[cp]
+                try:
+                    got = n.rf(cv)
+                except (NotNumeric, TypeError):
+                    continue
+                atoms = got.atoms()
+                if not any(a == 'c' or 'c)' in a or '(c' in a or a.startswith('c.') or ', c' in a for a in atoms):
+                    continue        # the default arm of a nested match (e.g. Some(_) => 0.) does not involve the digit
+                const_p = const_p or cp
+                if cp != const_p:
+                    rep.fail('R3', 'digit-step:one-constant-cell', where(fo, some_t), 'digits write two different places: %s, %s' % (const_p, cp))
+                    continue
+                C = n.atom(const_p)
+                s_ = n.atom(sign_p)
+                # is the operator pending on this path?  (conditions on the operator place)
+                op_conds = [c for c in o.pc if c[0] in ('switch', 'switch-not', 'cond') and op_p.split('.')[0] in repr(c[1])]
+                is_none = any(c[0] == 'switch' and c[2] == 0 for c in op_conds) or \
+                    any(c[0] == 'cond' and c[2] is False and op_p in repr(c[1]) and c[1][0] == 'sym' for c in op_conds)
+                from ..poly import subst
+                try:
+                    v_first = subst(subst(got, sign_p, n.const(1)), const_p, n.const(0))
+                    v_div = subst(subst(got, sign_p, n.const(1)), const_p, n.const(1))
+                except Exception:
+                    continue
+                digit_only = lambda rf: all(a not in (sign_p, const_p) and not a.startswith('v') for a in rf.atoms())     # noqa: E731
+                n_digit += 1
+                if got.equals(s_ * v_first) and digit_only(v_first) and not v_first.is_zero():
+                    ok = is_none and same(dl.get(sign_p, S), NUM(1))
+                    rep.check(ok, 'R3', 'digit-step:first-digit', where(fo, some_t), 'constant := sign * digit; sign consumed',
+                              'constant := sign*digit happens while an operator is pending, or the sign is not consumed')
+                elif (got.equals(s_ * C * v_div) or got.equals(C * v_div)) and digit_only(v_div):
+                    slash = any(c[0] == 'cond' and c[2] and '47' in repr(c[1]) for c in o.pc) or \
+                        any(c[0] == 'switch' and c[2] == 47 for c in o.pc) or not is_none
+                    if slash and any('47' in repr(c[1]) or c[2] == 47 for c in o.pc if c[0] in ('cond', 'switch')):
+                        # v_div is what multiplies the constant: it must be the reciprocal of a digit-only value
+                        okd = not v_div.is_zero() and digit_only(n.const(1) / v_div)
+                        rep.check(okd, 'R3', 'digit-step:after-slash', where(fo, some_t), 'constant := [sign*]constant / digit',
+                                  'a digit after \'/\' does not divide the constant by the digit (got %s)' % got.canon()[:120])
+                else:
+                    rep.fail('R3', 'digit-step:form', where(fo, some_t),
+                             'a digit sets the constant to %s: neither sign*digit nor [sign*]constant/digit' % got.canon()[:160])
+            if not rep.check(const_p is not None, 'R3', 'digit-step:constant-cell', where(fo, some_t), 'constant cell %s' % const_p,
+                             'no digit step writes a place with a value that depends on the digit', 'undecidable-shape'):
+                return
+            all_cells.append({'loop': d, 'row': row, 'x': x_p, 'y': y_p, 'const': const_p, 'mat': mat_l, 'nested': bool(outer)})
     for nm in lemmas.values():
-        rep.check(nm in seen, 'R3', 'char-step-present:%s' % nm, where(fo, some_t), 'handled', 'no path handles the character class %s' % nm,
+        rep.check(nm in seen, 'R3', 'char-step-present:%s' % nm, where(fo), 'handled', 'no path handles the character class %s' % nm,
                   'undecidable-shape')
-    # digits: with no pending operator constant := sign*V ; with a pending '/' constant := [sign*]constant/V ; sign consumed
-    sx, outs = results[0]
-    dig = [o for o in outs if isinstance(o.ret, tuple) and o.ret[0] == 'stopped' and char_class(o)[0] is None and
-           any('as:f64' in repr(state_of(sx, o)['constant']) or 'parse' in repr(state_of(sx, o)['constant']) for _ in (0,))]
-    n_d = 0
-    for o in dig:
-        st = state_of(sx, o)
-        cv = st['constant']
-        vs = [a for a in _apps(cv) if 'parse' in repr(a) or 'as:f64' in a[1]]
-        if not vs:
-            continue
-        try:
-            got = n.rf(cv)
-        except (NotNumeric, TypeError):
-            continue
-        V = None
-        for a in got.atoms():
-            if 'parse' in a or 'Try' in a or 'branch' in a:
-                V = n.atom(a)
-        if V is None:
-            continue
-        n_d += 1
-        s_, c_ = n.atom('sign'), n.atom('constant')
-        forms_none = [s_ * V]
-        forms_div = [s_ * c_ / V, c_ / V]
-        opd = [c for c in o.pc if c[0] in ('switch', 'switch-not') and 'operator' in repr(c[1])]
-        is_none = any(c[0] == 'switch' and c[2] == 0 for c in opd)
-        if is_none:
-            ok = any(got.equals(x) for x in forms_none) and same(st['sign'], NUM(1))
-            rep.check(ok, 'R3', 'digit-step:first-digit', where(fo, some_t), 'constant := sign * digit; sign consumed',
-                      'a digit with no pending operator does not set constant := sign*digit (got %s)' % got.canon()[:120])
-        else:
-            slash = any(c[0] == 'cond' and c[2] and '47' in repr(c[1]) for c in o.pc)
-            if slash:
-                ok = any(got.equals(x) for x in forms_div)
-                rep.check(ok, 'R3', 'digit-step:after-slash', where(fo, some_t), 'constant := constant / digit',
-                          'a digit after \'/\' does not divide the constant by the digit (got %s)' % got.canon()[:120])
-    rep.floor('R3', 'digit transitions checked', n_d, 2, where(fo, some_t))
-    rep.sample('character step: blank=identity, \'-\': sign:=-1, x/y: m[row,col]:=sign & sign:=1, \'/\': pending division, digit: sign*d or constant/d')
+    rep.floor('R3', 'digit transitions checked', n_digit, 2, where(fo))
+    _cell_wiring(ctx, fo, cfg, tr, all_cells)
+    rep.sample('character step: blank=identity, \'-\': sign:=-1, x/y: cell:=sign & sign:=1, \'/\': pending division, digit: sign*d or constant/d')
+
+
+def _cell_wiring(ctx, fo, cfg, tr, cells):
+    """The x / y / constant cells of each row end up in entries (row, 0), (row, 1), (row, 2) of the returned matrix."""
+    rep = ctx.rep
+    if not cells:
+        return
+    if cells[0]['mat'] is not None and cells[0]['x'].startswith('M['):
+        # matrix-writing parser: x / y cells ARE the entries (checked per row above); the constant is stored after the loop
+        d = cells[0]['loop']
+        ok = False
+        late = None
+        for bi, t in fo.calls():
+            nm = callee_name(t) or ''
+            if '(usize, usize)' in nm and nm.endswith('index_mut') and bi not in d['loop']['body']:
+                idx = tr.origin(t['args'][1])
+                col = const_value(idx['rv']['ops'][1]) if idx['o'] == 'rvalue' and len(idx['rv'].get('ops', [])) == 2 else None
+                if col == 2:
+                    rl = t['dest']['l']
+                    for (wbi, wsi, pl, rv) in tr.defs.dwrites.get(rl, []):
+                        if rv.get('r') == 'use' and rv['a'].get('l') is not None:
+                            src = tr.chain(rv['a'])[-1][0]
+                            late = src
+                            ok = 'v%d' % src == cells[0]['const']
+        rep.check(ok, 'R3', 'constant-stored-after-the-characters', where(fo),
+                  'transform[(row, 2)] := constant after the character loop',
+                  'the constant cell %s is not stored in column 2 after the character loop (stored: %s)' % (cells[0]['const'], late))
+        return
+    # row-collecting parser: follow what is put into the matrix back to the cells
+
+    def resolve(op):
+        """Place an operand's value comes from, looking through `?`, helper results (the Ok(..) definition of a spliced
+        helper's return slot), arrays and tuples."""
+        o, _ = through(tr, op)
+        for _ in range(6):
+            if o['o'] == 'local' and len(tr.defs.of(o['l'])) > 1:
+                succ = [x for x in tr.defs.of(o['l']) if x[2] == 'assign' and x[3].get('r') == 'aggr' and
+                        x[3].get('variant') in ('Ok', 'Some', 'Continue') and x[0] in cfg.reach]
+                if len(succ) == 1 and succ[0][3]['ops']:
+                    a = succ[0][3]['ops'][0]
+                    p = [e for e in o['p'] if not (isinstance(e, dict) and 'downcast' in e)]
+                    if p and isinstance(p[0], dict) and p[0].get('f') == 0 and o['p'] and isinstance(o['p'][0], dict) and 'downcast' in o['p'][0]:
+                        p = p[1:]
+                    if a.get('k') == 'const':
+                        return None
+                    o = tr._origin_place(a['l'], list(a['p']) + p, 0)
+                    o2, _ = (o, None)
+                    continue
+            break
+        if o['o'] == 'local':
+            fp = field_path(o['p'])
+            return 'v%d' % o['l'] + (''.join('.' + x for x in fp) if fp else '')
+        return None
+    want = {}
+    for c in cells:
+        for j, k in enumerate(('x', 'y', 'const')):
+            want[(c['row'], j)] = c[k]
+    bad = []
+    n_wired = 0
+    ctor = [(bi, t) for bi, t in fo.calls() if (callee_name(t) or '').endswith('::new') and len(t['args']) == 9 and 'Matrix' in (t['dest'].get('ty', ''))]
+    if len(ctor) == 1:
+        bi, t = ctor[0]
+        for (r, j), cell in sorted(want.items()):
+            got = resolve(t['args'][3 * r + j])
+            n_wired += 1
+            if got != cell:
+                bad.append('entry (%d,%d) comes from %s, expected the %s cell %s' % (r, j, got, ('x', 'y', 'constant')[j], cell))
+    else:
+        loops_bodies = set()
+        for c in cells:
+            loops_bodies |= c['loop']['loop']['body']
+        bi = None
+        for wbi, t in fo.calls():
+            nm = callee_name(t) or ''
+            if '(usize, usize)' in nm and nm.endswith('index_mut') and wbi not in loops_bodies and wbi in cfg.reach:
+                idx = tr.origin(t['args'][1])
+                col = const_value(idx['rv']['ops'][1]) if idx['o'] == 'rvalue' and len(idx['rv'].get('ops', [])) == 2 else None
+                rl = t['dest']['l']
+                for (w2, wsi, pl, rv) in tr.defs.dwrites.get(rl, []):
+                    if rv.get('r') == 'use' and rv['a'].get('l') is not None and col in (0, 1, 2):
+                        got = resolve(rv['a'])
+                        n_wired += 1
+                        bi = wbi
+                        cands = {c[('x', 'y', 'const')[col]] for c in cells}
+                        if got not in cands:
+                            bad.append('column %d is written from %s, expected the %s cell %s' % (col, got, ('x', 'y', 'constant')[col], sorted(cands)))
+    rep.check(not bad and n_wired >= 3, 'R3', 'row-cells-reach-the-matrix', where(fo, bi) if bi is not None else where(fo),
+              'entries (row, 0..2) = x, y, constant cells of that row (%d checked)' % n_wired,
+              '; '.join(bad[:3]) or 'cannot find how the rows are assembled into the matrix')
 
 
 def _apps(v):
